@@ -431,8 +431,14 @@ func gen(seed uint64, tier string) {
 			}
 			emit("mls", tol, ml)
 		case k < 18:
+			if r.Chance(0.4) { // tolerance comparable to the size of the spikes of the ring
+				tol = float64(r.Range(2, 16))
+			}
 			emit("pg", tol, polygon(r, big))
 		default:
+			if r.Chance(0.4) {
+				tol = float64(r.Range(2, 16))
+			}
 			m := []int{0, 1, 2, 2, 3}[r.Intn(5)]
 			mp := make(geom.MultiPolygon, m)
 			for i := range mp {
